@@ -135,11 +135,12 @@ class Opaque:
 class Bytes:
     """byte sequence: at(i: z3 BV64 | int) -> z3 BV8; len: z3 BV64.
     kind is informational ('bytes','bytesmut','vec','string','str','slice','array')."""
-    __slots__ = ('_at', 'len', 'kind', 'conc', 'utf8', 'cap', 'segs')
+    __slots__ = ('_at', 'len', 'kind', 'conc', 'utf8', 'cap', 'segs', 'origin')
 
     def __init__(self, at, length, kind='bytes', conc=None, utf8=None, cap=None):
         self._at = at
         self.cap = cap   # BytesMut capacity (z3 BV64) when tracked
+        self.origin = None   # (base Bytes, offset term) when this value is base[offset, offset+len)
         self.segs = None  # tuple of Bytes when this value was built by concatenation (rope view, same contents)
         if isinstance(length, int):
             length = BV(length, 64)
@@ -165,6 +166,7 @@ class Bytes:
     def retag(self, kind):
         r = Bytes(self._at, self.len, kind, self.conc, self.utf8, self.cap)
         r.segs = self.segs
+        r.origin = self.origin
         return r
 
     @staticmethod
@@ -204,10 +206,18 @@ class Bytes:
         cn = concrete(n)
         if self.conc is not None and co is not None and cn is not None and co + cn <= len(self.conc):
             return Bytes.from_terms(self.conc[co:co + cn], kind or self.kind)
+        if self.origin is not None:
+            b0, o0 = self.origin
+            r = b0.slice(simp(o0 + off), n, kind or self.kind)
+            return r
         if co == 0:
-            return Bytes(self._at, n, kind or self.kind, None, None)
+            r = Bytes(self._at, n, kind or self.kind, None, None)
+            r.origin = (self, BV(0, 64))
+            return r
         base = self
-        return Bytes(lambda i, base=base, off=off: base.at(simp(i + off)), n, kind or self.kind)
+        r = Bytes(lambda i, base=base, off=off: base.at(simp(i + off)), n, kind or self.kind)
+        r.origin = (self, off)
+        return r
 
     def concat(self, other, kind=None):
         if self.conc is not None and other.conc is not None and self.segs is None and other.segs is None:
@@ -218,6 +228,10 @@ class Bytes:
             return Bytes(b._at, b.len, kind or self.kind, b.conc, None)
         if concrete(b.len) == 0:
             return Bytes(a._at, a.len, kind or self.kind, a.conc, None)
+        if a.origin is not None and b.origin is not None and a.origin[0] is b.origin[0]:
+            # adjacent slices of the same base merge back into one slice
+            if z3.is_true(simp(a.origin[1] + a.len == b.origin[1])):
+                return a.origin[0].slice(a.origin[1], simp(a.len + b.len), kind or self.kind)
 
         def at(i, a=a, b=b):
             c = concrete(i)
